@@ -283,7 +283,7 @@ pub fn item<S: Src>(s: &mut S) {
     let l = d[1] as usize;
     let overrun = 2 + l > len;
     let is_priv = d[0] == PRIV;
-    let prefix_overrun = is_priv && l >= 1 && 1 + d[2] as usize > l;
+    let prefix_overrun = !overrun && is_priv && l >= 1 && 1 + d[2] as usize > l;
     match r {
         Ok((i, end)) => {
             assert!(!overrun, "accepted an item that overruns its input");
@@ -316,15 +316,8 @@ pub fn encoded<S: Src, const NC: usize, const NI: usize, const L: usize, const B
     let ki = s.upto(NI);
     let j = s.upto(L);
     let mut buf = [0u8; B];
-    let n = c.size();
-    assert!(n <= B, "HARNESS: buffer array too small");
-    let mut i = 0;
-    while i < B {
-        if i < n {
-            buf[i] = c.byte(i);
-        }
-        i += 1;
-    }
+    assert!(c.size() <= B, "HARNESS: buffer array too small");
+    let n = c.render(&mut buf);
     let p = Sdes::parse(&buf[..n]).expect("well-formed SDES packet rejected");
     assert!(p.chunks().count() == NC, "chunk count differs");
     if kc < NC {
